@@ -19,7 +19,9 @@ From Coq Require Import ZArith.
 
 (* After every event list exactly one of: waiting (request incomplete, nothing queued or sent,
    connection open), serving (request complete, plugin created, on_request_complete ran exactly
-   once, nothing of the handler's own queued), rejected (exactly one response of the handler's
+   once -- possibly followed, in the same handle_data call, by the one on_client_data call that
+   hands over the bytes received behind the request (fix e222aa4) -- nothing of the handler's
+   own queued), rejected (exactly one response of the handler's
    making queued, teardown requested), closed without response (non-protocol exception after
    parsing, or a protocol exception whose response() is None: nothing of the handler's making),
    client closed (EOF / recv error before the request was complete).  Total over `exn`: every
@@ -91,8 +93,10 @@ Theorem C06_bare_close_clean : forall cfg orc ocd evs, let h := run cfg orc ocd 
 Proof. exact nothing_of_its_own. Qed.
 Print Assumptions C06_bare_close_clean.
 
-(* Once the first request is complete it is never parsed again, no second plugin is created and
-   on_request_complete is not invoked again (later pieces go to plugin.on_client_data). *)
+(* Once the first request is complete (as seen after the handle_data call that completed it, i.e.
+   with request.buffer already handed over and cleared) it is never parsed or touched again, no
+   second plugin is created and on_request_complete is not invoked again (later pieces go to
+   plugin.on_client_data). *)
 Theorem C06_complete_is_frozen : forall cfg orc ocd evs more,
   is_complete (request (run cfg orc ocd evs)) = true ->
   frozen (run cfg orc ocd (evs ++ more)) = frozen (run cfg orc ocd evs).
@@ -205,6 +209,17 @@ Proof. vm_compute. reflexivity. Qed.
 Example C06_ex_serving :
   let h := ex_run (RetBool false) (recv_events [bytes_of_string "GET http://a/ HT"; bytes_of_string "TP/1.1" ++ CRLF; CRLF; bytes_of_string "tail"]) in
   outcomes h = [false; true; false; false; false] /\ orc_calls h = 1 /\ ocd h = [bytes_of_string "tail"] /\ sent h = [].
+Proof. vm_compute. repeat split. Qed.
+
+(* bytes behind the first request in the same segment are handed to the plugin once, in the same
+   call, and request.buffer is cleared (fix e222aa4); an exception of that call is answered like any other *)
+Example C06_ex_remainder_handed_over :
+  let seg := bytes_of_string "GET http://a/ HTTP/1.1" ++ CRLF ++ CRLF ++ bytes_of_string "GET http://b/ HTTP/1.1" ++ CRLF ++ CRLF in
+  let h := ex_run (RetBool false) (recv_events [seg]) in
+  let h' := run ex_cfg (ex_orc (RetBool false)) (fun _ _ _ _ => ([], OcdRaise (Proto ConnFailed))) (recv_events [seg]) in
+  outcomes h = [false; true; false; false; false] /\ orc_calls h = 1 /\
+  ocd h = [bytes_of_string "GET http://b/ HTTP/1.1" ++ CRLF ++ CRLF] /\ Parser.buffer (request h) = None /\
+  outcomes h' = [false; false; true; false; false] /\ map fst (hq h') = [BAD_GATEWAY_RESPONSE_PKT (agent ex_cfg)].
 Proof. vm_compute. repeat split. Qed.
 
 (* malformed request line: 400, flushed, closed; the later piece is never parsed *)
